@@ -282,8 +282,8 @@ func (ex *Exec) runDeferred(fr *Frame, d deferred, st *State, reach Term, recove
 		if mc, isClosure := d.call.Value.(*ssa.MakeClosure); isClosure && d.closure != nil {
 			// a deferred closure that does not recover: run its body (inlined) on this exit
 			cf := mc.Fn.(*ssa.Function)
-			if usesRecover(cf) {
-				panic(unsupported("deferred closure calling recover() in %s", fr.fn))
+			if usesRecover(cf) && recovered != nil {
+				panic(unsupported("deferred closure calling recover() on a panicking path in %s", fr.fn))
 			}
 			ex.inlineCall(fr, cf, d.closure.Free, d.args, st, reach, d.pos)
 			fr.newReach = nil
@@ -539,6 +539,9 @@ func (ex *Exec) enterLoop(fr *Frame, li *loopInfo, states []*State, conds []Term
 			invRoots[name] = excl
 			rv := Var("r?", SInt)
 			guard := []Term{Lt(rv, limit)}
+			if strings.HasPrefix(name, "G|") {
+				guard = nil // ghost heaps are keyed by arbitrary integers, not by references
+			}
 			seen := map[string]bool{}
 			for _, r := range excl {
 				if !seen[r.S] {
@@ -1175,6 +1178,9 @@ func (ex *Exec) goStmt(fr *Frame, c *ssa.CallCommon, st *State, reach Term, pos 
 	ex.bump(st, names, func(name string, old, nh Term) Term {
 		rv := Var("r?", SInt)
 		guard := []Term{Lt(rv, topPre)}
+		if strings.HasPrefix(name, "G|") {
+			guard = nil
+		}
 		for _, d := range byHeap[name] {
 			if d.all {
 				return True
